@@ -151,6 +151,16 @@ func (r *Run) Sample(v interface{}) {
 // Obligations returns what was recorded so far.
 func (r *Run) Obligations() []Obligation { return r.obls }
 
+// HasBad reports whether a rule already has a violated or undecided obligation.
+func (r *Run) HasBad(rule string) bool {
+	for _, o := range r.obls {
+		if o.Rule == rule && (o.Status == Violated || o.Status == Undecided) {
+			return true
+		}
+	}
+	return false
+}
+
 func loadFindings(path string) ([]Finding, error) {
 	b, err := os.ReadFile(path)
 	if err != nil {
